@@ -35,7 +35,7 @@ func ruleVD16(c *Ctx) {
 	add(c.unitOf(hc))
 	for i := 0; i < len(order); i++ {
 		for _, call := range callsIn(order[i]) {
-			cal := call.Common().StaticCallee()
+			cal := calleeOf(call.Common())
 			if cal == nil || !c.InModule(cal) || cal.Blocks == nil || unit[cal] {
 				continue
 			}
